@@ -1976,3 +1976,58 @@ package ast
 //@   invariant@2[C12] catkept: cat == old(cat)
 //@   ensures err == nil ==> kb != nil
 //@   ensures[C12] header: err == nil ==> kb.Name == cat.KnowledgeBaseName && kb.Version == cat.KnowledgeBaseVersion && kb.WorkingMemory != nil && kb.WorkingMemory.Name == cat.MemoryName && kb.WorkingMemory.Version == cat.MemoryVersion
+
+// ---- WorkingMemory.MakeCatalog (C12): the three snapshot maps are stored key for key, each value the AstID of the node filed
+// under that key; name and version are stored. (The two index maps are rebuilt by loops 4-7; only their frames are checked.)
+//@ macro func wmA(workingMem *WorkingMemory, cat *Catalog) bool { return (forall k string :: has(cat.MemoryExpressionSnapshotMap, k) == has(workingMem.expressionSnapshotMap, k)) && (forall k string :: has(workingMem.expressionSnapshotMap, k) ==> cat.MemoryExpressionSnapshotMap[k] == workingMem.expressionSnapshotMap[k].AstID) }
+//@ macro func wmB(workingMem *WorkingMemory, cat *Catalog) bool { return (forall k string :: has(cat.MemoryExpressionAtomSnapshotMap, k) == has(workingMem.expressionAtomSnapshotMap, k)) && (forall k string :: has(workingMem.expressionAtomSnapshotMap, k) ==> cat.MemoryExpressionAtomSnapshotMap[k] == workingMem.expressionAtomSnapshotMap[k].AstID) }
+//@ macro func wmC(workingMem *WorkingMemory, cat *Catalog) bool { return (forall k string :: has(cat.MemoryVariableSnapshotMap, k) == has(workingMem.variableSnapshotMap, k)) && (forall k string :: has(workingMem.variableSnapshotMap, k) ==> cat.MemoryVariableSnapshotMap[k] == workingMem.variableSnapshotMap[k].AstID) }
+//@ func (workingMem *WorkingMemory) MakeCatalog(cat) ()
+//@   serves C12
+//@   opt alloc=1
+//@   requires workingMem != nil && cat != nil
+//@   modifies Catalog.*, alloc, $allocated, map[string]string, map[string][]string
+//@   invariant@1[C12] a: cat.MemoryExpressionSnapshotMap != nil && fresh(cat.MemoryExpressionSnapshotMap) && (forall j int {$keys[j]} :: 0 <= j && j < $i ==> has(cat.MemoryExpressionSnapshotMap, $keys[j]) && cat.MemoryExpressionSnapshotMap[$keys[j]] == workingMem.expressionSnapshotMap[$keys[j]].AstID) && (forall k string :: has(cat.MemoryExpressionSnapshotMap, k) ==> has(workingMem.expressionSnapshotMap, k))
+//@   invariant@2[C12] ab: wmA(workingMem, cat) && cat.MemoryExpressionAtomSnapshotMap != cat.MemoryExpressionSnapshotMap && cat.MemoryExpressionAtomSnapshotMap != nil && fresh(cat.MemoryExpressionAtomSnapshotMap) && (forall j int {$keys[j]} :: 0 <= j && j < $i ==> has(cat.MemoryExpressionAtomSnapshotMap, $keys[j]) && cat.MemoryExpressionAtomSnapshotMap[$keys[j]] == workingMem.expressionAtomSnapshotMap[$keys[j]].AstID) && (forall k string :: has(cat.MemoryExpressionAtomSnapshotMap, k) ==> has(workingMem.expressionAtomSnapshotMap, k))
+//@   invariant@3[C12] abc: wmA(workingMem, cat) && wmB(workingMem, cat) && cat.MemoryVariableSnapshotMap != cat.MemoryExpressionSnapshotMap && cat.MemoryVariableSnapshotMap != cat.MemoryExpressionAtomSnapshotMap && cat.MemoryVariableSnapshotMap != nil && fresh(cat.MemoryVariableSnapshotMap) && (forall j int {$keys[j]} :: 0 <= j && j < $i ==> has(cat.MemoryVariableSnapshotMap, $keys[j]) && cat.MemoryVariableSnapshotMap[$keys[j]] == workingMem.variableSnapshotMap[$keys[j]].AstID) && (forall k string :: has(cat.MemoryVariableSnapshotMap, k) ==> has(workingMem.variableSnapshotMap, k))
+//@   ensures[C12] header: cat.MemoryName == workingMem.Name && cat.MemoryVersion == workingMem.Version
+//@   ensures kbheaderkept: cat.KnowledgeBaseName == old(cat.KnowledgeBaseName) && cat.KnowledgeBaseVersion == old(cat.KnowledgeBaseVersion) && cat.Data == old(cat.Data)
+//@   ensures othercatalogs: forall c *Catalog :: c != cat ==> c.KnowledgeBaseName == old(c.KnowledgeBaseName) && c.KnowledgeBaseVersion == old(c.KnowledgeBaseVersion) && c.Data == old(c.Data) && c.MemoryName == old(c.MemoryName) && c.MemoryVersion == old(c.MemoryVersion) && c.MemoryVariableSnapshotMap == old(c.MemoryVariableSnapshotMap) && c.MemoryExpressionSnapshotMap == old(c.MemoryExpressionSnapshotMap) && c.MemoryExpressionAtomSnapshotMap == old(c.MemoryExpressionAtomSnapshotMap) && c.MemoryExpressionVariableMap == old(c.MemoryExpressionVariableMap) && c.MemoryExpressionAtomVariableMap == old(c.MemoryExpressionAtomVariableMap)
+//@   ensures[C12] snapshotmaps: wmA(workingMem, cat) && wmB(workingMem, cat) && wmC(workingMem, cat)
+
+// ---- store / instantiate (C12, C16, C09) ----
+//@ func (e *KnowledgeBase) MakeCatalog() (c)
+//@   serves C12
+//@   opt alloc=1
+//@   requires e != nil && e.WorkingMemory != nil
+//@   requires forall k string :: has(e.RuleEntries, k) ==> e.RuleEntries[k] != nil
+//@   modifies $catAddN, alloc, $allocated, RuleEntryMeta.*, fresh Catalog.*, map[string]string, map[string][]string
+//@   invariant@1 shape: fresh(catalog) && catalog.KnowledgeBaseName == e.Name && catalog.KnowledgeBaseVersion == e.Version && e.WorkingMemory != nil && e.WorkingMemory == old(e.WorkingMemory)
+//@   ensures[C12] header: c != nil && c.KnowledgeBaseName == e.Name && c.KnowledgeBaseVersion == e.Version && c.MemoryName == e.WorkingMemory.Name && c.MemoryVersion == e.WorkingMemory.Version
+//@   ensures[C12] snapshotmaps: wmA(e.WorkingMemory, c) && wmB(e.WorkingMemory, c) && wmC(e.WorkingMemory, c)
+// (AddMeta files non-nil records: the node-level MakeCatalog functions are thin contracts, so this is ASSUMED here)
+//@   trusted_ensures forall k string :: has(c.Data, k) ==> c.Data[k] != nil
+// a failing writer always surfaces (the catalogue is made first, then written; nothing else can fail)
+//@ func (lib *KnowledgeLibrary) StoreKnowledgeBaseToWriter(writer, name, version) (err)
+//@   serves C12
+//@   opt alloc=1
+//@   requires libWF(lib) && writer != nil
+//@   modifies *, @wstream, $catAddN, $allocated
+//@   ensures[C12] errorsurfaces: ($wErrN > old($wErrN)) == (err != nil)
+// an instance exists exactly for a (name, version) the library holds; it is the blueprint's clone under a NEW clone table
+//@ extern func (e *KnowledgeBase) IsIdentical(that) (r)
+//@   nopanic
+//@   modifies
+//@ func (lib *KnowledgeLibrary) NewKnowledgeBaseInstance(name, version) (r, err)
+//@   serves C16 C09
+//@   opt alloc=1
+// the blueprint = everything that exists when instantiation starts
+//@   ghost_entry $blue = allocmap()
+//@   requires lib != nil
+//@   requires has(lib.Library, name + ":" + version) ==> libKB(lib, name, version) != nil && (libKB(lib, name, version).RuleEntries != nil ==> allocated(libKB(lib, name, version).RuleEntries))
+//@   modifies @clonefx, fresh pkg.CloneTable.*, fresh KnowledgeBase.*, fresh map[string]*RuleEntry, fresh WorkingMemory.*, fresh map[string]*Expression, fresh map[string]*ExpressionAtom, fresh map[string]*Variable, fresh map[*Variable][]*Expression, fresh map[*Variable][]*ExpressionAtom
+//@   ensures[C16] unknownkb: !has(lib.Library, name + ":" + version) ==> err != nil && r == nil
+//@   ensures[C09] notblue: err == nil ==> !$blue[r]
+//@   ensures[C16,C09] instance: err == nil ==> has(lib.Library, name + ":" + version) && fresh(r) && r.Name == libKB(lib, name, version).Name && r.Version == libKB(lib, name, version).Version
+//@   ensures[C16,C09] sameentries: err == nil && old(entriesAlloc(libKB(lib, name, version))) && libKB(lib, name, version).RuleEntries != nil ==> (forall k string :: has(r.RuleEntries, k) == has(libKB(lib, name, version).RuleEntries, k))
+//@   ensures[C09,C16] blueprintkept: oldMapsKept() && (forall m map[string]*KnowledgeBase, k string :: has(m, k) == old(has(m, k)) && m[k] == old(m[k]))
